@@ -17,6 +17,7 @@ pub fn list() -> Vec<(&'static str, super::Scenario)> {
 fn desync_then_sync(cfg: &Cfg) {
     setup(cfg.pool());
     let w = World::new();
+    w.prelude(cfg);
     let q = w.raw();
     w.desync(&q, "A", Body::plain());
     w.sync(&q, "B", Body::plain());
@@ -31,6 +32,7 @@ fn desync_then_sync(cfg: &Cfg) {
 fn f1_try_sync_idle_nonempty(cfg: &Cfg) {
     setup(cfg.pool());
     let w = World::new();
+    w.prelude(cfg);
     let q = w.raw();
     let (w1, q1) = (w.clone(), q.clone());
     let t1 = spawn(move || {
@@ -55,6 +57,7 @@ fn f1_try_sync_idle_nonempty(cfg: &Cfg) {
 fn f2_dormant_race(cfg: &Cfg) {
     setup(cfg.pool());
     let w = World::new();
+    w.prelude(cfg);
     let qa = w.raw();
     let qb = w.raw();
     w.desync(&qa, "A", Body::plain());
@@ -73,6 +76,7 @@ fn f2_dormant_race(cfg: &Cfg) {
 fn f3_sync_sync(cfg: &Cfg) {
     setup(cfg.pool());
     let w = World::new();
+    w.prelude(cfg);
     let q = w.raw();
     let (w1, q1) = (w.clone(), q.clone());
     let t1 = spawn(move || { w1.sync(&q1, "X", Body::plain()); });
@@ -91,6 +95,7 @@ fn f3_sync_sync(cfg: &Cfg) {
 fn f3_nested_sync(cfg: &Cfg) {
     setup(cfg.pool());
     let w = World::new();
+    w.prelude(cfg);
     let qw = w.raw();
     let qb = w.raw();
     let (w1, q1) = (w.clone(), qw.clone());
@@ -110,6 +115,7 @@ fn f3_nested_sync(cfg: &Cfg) {
 fn selftest_uaf(cfg: &Cfg) {
     setup(cfg.pool());
     let w = World::new();
+    w.prelude(cfg);
     let q = w.raw();
     w.sync(&q, "S", Body::with(|| {
         let b = Box::new(41u64);
